@@ -267,12 +267,20 @@ func (g *generator) walkAnyOf(schema *openapi3.Schema) (ast.Type, error) {
 func (g *generator) walkEnum(schema *openapi3.Schema) (ast.Type, error) {
 	// Nullable enums? https://swagger.io/docs/specification/data-models/enums/
 	enums := make([]ast.EnumValue, 0, len(schema.Enum))
+	// `type` is optional: infer it from the values when it is not there
+	typeName := openapi3.TypeInteger
+	if schema.Type != nil && len(schema.Type.Slice()) != 0 {
+		typeName = schema.Type.Slice()[0]
+	} else if _, isString := schema.Enum[0].(string); isString {
+		typeName = openapi3.TypeString
+	}
+
 	format := "%#v"
-	if schema.Type.Is(openapi3.TypeString) {
+	if typeName == openapi3.TypeString {
 		format = "%s"
 	}
 
-	enumType, err := getEnumType(schema.Type.Slice()[0])
+	enumType, err := getEnumType(typeName)
 	if err != nil {
 		return ast.Type{}, err
 	}
